@@ -716,7 +716,7 @@ fn c05_bases() -> Vec<C05Base> {
     ]
 }
 
-pub fn c05_units() -> Vec<Unit> {
+pub fn c05_units(seed: u64, thorough: bool) -> Vec<Unit> {
     let mut out = vec![];
     let mk_unit = |class: String, features: &[&str], body: String, decl: String, expect: Expect, codes: &[&str], nontrivial: bool| Unit {
         id: String::new(),
@@ -761,6 +761,43 @@ pub fn c05_units() -> Vec<Unit> {
             out.push(mk_unit(format!("control:{}:{}", a.name, b.name), ALL, format!("{header}{module}{}\n", subst(a.control)), decl.clone(), Expect::Accept, &[], nt));
         }
     }
+    // seed-dependent: the same attack catalogue against proptest-generated declarations
+    let rnd = catalogue::finalize(crate::random::random_decls(seed ^ 0xC05, if thorough { 160 } else { 14 }), "x");
+    for (ri, d) in rnd.iter().enumerate() {
+        let mut d = d.clone();
+        d.type_name = "T".into();
+        d.new_unchecked = false;
+        let (inner_ty, as_ref_ty, value, collection) = match d.inner {
+            Inner::Str => ("String", "str", "String::from(\"ab\")", false),
+            Inner::Int(t) => (t.name(), t.name(), "7", false),
+            Inner::F32 => ("f32", "f32", "7.5", false),
+            Inner::F64 => ("f64", "f64", "7.5", false),
+            Inner::VecI32 => ("Vec<i32>", "Vec<i32>", "vec![1, 2]", true),
+            Inner::Point => ("Point", "Point", "Point { x: 1, y: 2 }", false),
+        };
+        let mk = if d.has_validation() { format!("T::try_new({value}).unwrap()") } else { format!("T::new({value})") };
+        let decl = d.decl_text();
+        // the declaration with everything it references, inside `pub mod m`
+        let inner_src = unit_source(&d, false, "");
+        let inner_src: String = inner_src.lines().filter(|l| !l.starts_with("#![")).collect::<Vec<_>>().join("\n    ");
+        let module = format!("pub mod m {{\n    {inner_src}\n}}\nuse m::*;\n");
+        for a in ATTACKS {
+            if !a.needs.iter().all(|t| d.has(*t)) {
+                continue;
+            }
+            let coll_only = matches!(a.name, "iter-mut" | "push-through-deref" | "get-mut-through-deref" | "for-in-mut-ref");
+            if coll_only && !collection {
+                continue;
+            }
+            if a.name == "default-without-default" && d.has(Tr::Default) {
+                continue;
+            }
+            let subst = |t: &str| t.replace("{TY}", "T").replace("{T}", "T").replace("{I}", inner_ty).replace("{R}", as_ref_ty).replace("{V}", value).replace("{MK}", &mk);
+            out.push(mk_unit(format!("attack:{}:random{ri}", a.name), ALL, format!("{header}{module}{}\n", subst(a.attack)), decl.clone(), Expect::Reject, a.codes, !a.needs.is_empty()));
+            out.push(mk_unit(format!("control:{}:random{ri}", a.name), ALL, format!("{header}{module}{}\n", subst(a.control)), decl.clone(), Expect::Accept, &[], !a.needs.is_empty()));
+        }
+    }
+
     // new_unchecked: exists only with feature AND flag, and is unsafe
     let nu_decl_flag = "#[nutype(new_unchecked, validate(greater = 0))]\npub struct T(i32);";
     let nu_decl_noflag = "#[nutype(validate(greater = 0))]\npub struct T(i32);";
